@@ -2,10 +2,13 @@
 import json, os
 import vlib, session
 import smtpworld as W
-from props import c08
+from props import c08, c02
+import dataq
 
 REQUIRED = ['rcpt_limit', 'rcpt_below_limit_accepted', 'rcptcount_is_list_length', 'bad_command_counts', 'bad_commands_disconnect',
-            'good_command_resets', 'size_param', 'size_param_ok', 'limits_as_in_source']
+            'good_command_resets', 'size_param', 'size_param_ok', 'limits_as_in_source',
+            'size_limit_no_handoff', 'oversize_not_accepted', 'hop_limit_no_handoff', 'overhops_not_accepted', 'received_in_body_not_counted',
+            'size_over_refused_552', 'size_within_not_refused_for_size', 'hops_over_refused_554', 'within_limits_queued', 'hops_within_not_looping']
 
 
 def msgsize(msg):
@@ -95,6 +98,124 @@ def run_job(ctx, b, name, seqs_msgs, databytes, vocab):
     vlib.handle_results(ctx, name, 'model QsmtpModel.Session.step vs the real server (limits)', dis, fails)
 
 
+# ------------------------------------------------------------------------------------------------
+# data phase against the Data model (smtp_data): sizes and Received: counts around the limits in every mode
+
+HX = lambda b: b.hex() if b else '-'
+KNOWN_HDRS = [b'Date: Tue, 1 Jan 2030 00:00:00 +0000', b'From: <a@b.example>', b'Message-Id: <1@x.example>']
+
+
+def limit_payload(rng, k, layout):
+    """header with k Received: fields laid out around the fields the RfC 2822 checks know"""
+    rec = [rng.choice([b'Received: from x by y', b'RECEIVED: by z', b'received:w']) for _ in range(k)]
+    known = list(KNOWN_HDRS)
+    if layout == 'first':
+        hdr = rec + known
+    elif layout == 'after':
+        hdr = known + rec
+    elif layout == 'between':
+        hdr = known[:1] + rec[:k // 2] + known[1:2] + rec[k // 2:] + known[2:]
+    elif layout == 'after-other':
+        hdr = [b'Subject: s', b'Delivered-To: nobody@elsewhere.example'] + rec + known
+    elif layout == 'folded':
+        hdr = known[:2] + [x for r in rec for x in (r, b'\tfolded continuation')] + known[2:]
+    else:   # 'none-known'
+        hdr = [b'Subject: s'] + rec
+    body = [b'', b'Received: in the body', b'body'] if rng.random() < 0.8 else []
+    return c02.wire(hdr + body)
+
+
+def size_payload(rng, target, shape):
+    """message whose stored size is exactly target (when reachable), the limit being crossed where `shape` says"""
+    known = list(KNOWN_HDRS)
+    def stored(lines):
+        return sum(len(l) + 2 for l in lines)
+    if shape == 'last-body-line':
+        lines = known + [b'']
+    elif shape == 'dots':
+        lines = known + [b'', b'.dotted', b'..', b'.']
+    elif shape == 'header-only':
+        lines = known
+    elif shape == 'one-line':
+        lines = []
+    else:   # 'many-lines'
+        lines = known + [b''] + [b'x' * rng.randrange(0, 30) for _ in range(rng.randrange(1, 6))]
+    room = target - stored(lines)
+    if shape == 'many-lines':
+        while room > 40:
+            n = rng.randrange(2, 40); lines.append(b'y' * (n - 2)); room -= n
+    if room >= 2:
+        last = b'z' * (room - 2)
+        if shape == 'header-only':
+            last = (b'X-Pad: ' + b'p' * max(0, room - 9))[:room - 2] if room >= 9 else None
+        if last is not None:
+            lines.append(last)
+    return c02.wire(lines), stored(lines)
+
+
+def limit_specs(ctx):
+    rng, quick = ctx.rng, ctx.quick()
+    specs = []
+    def spec(world, payload, tag, rcpt=b'RCPT TO:<alice@example.org>'):
+        w = dict(world)
+        w.setdefault('control', {})
+        w['control'] = dict(w['control']); w['control']['localiphost'] = HX(b'example.org\n')
+        pre = [b'EHLO client.example']
+        return {'world': w, 'pre': [HX(x) for x in pre],
+                'txs': [{'mail': HX(b'MAIL FROM:<s@remote.example>'), 'rcpts': [HX(rcpt)], 'payload': {'hex': HX(payload)},
+                         'cuts': None, 'greet': None, 'tag': tag}], 'post': [HX(b'NOOP'), HX(b'QUIT')]}
+    modes = [('plain', {}), ('strict', {'strict_all': 1}), ('submission', {'port': '587', 'relay': 'listed'})]
+    layouts = ['first', 'after', 'between', 'after-other', 'folded', 'none-known']
+    for mname, mw in modes:
+        for k in ([99, 100, 101, 102] if quick else range(97, 106)):
+            for lay in layouts:
+                specs.append(spec(mw, limit_payload(rng, k, lay), 'hops-%s/%s' % (mname, lay)))
+        for db in ([300] if quick else [120, 300, 2000]):
+            for shape in ['last-body-line', 'dots', 'header-only', 'one-line', 'many-lines']:
+                for delta in ([-1, 0, 1, 2] if quick else range(-3, 5)):
+                    pl, _ = size_payload(rng, db + delta, shape)
+                    w = dict(mw); w['control'] = {'databytes': HX(b'%d\n' % db)}
+                    specs.append(spec(w, pl, 'size-%s/%s' % (mname, shape)))
+    return specs
+
+
+def prop_on_transcripts(ctx, specs, results):
+    """the property read off the implementation's transcript (no model involved)"""
+    fails = []
+    for sp, r in zip(specs, results):
+        sc, plan, txs = dataq.make_scenario(sp)
+        _, replies = dataq.command_replies(r, plan)
+        v = c02.client_view(sp, plan, replies)
+        if not v or not v[0]['c354']:
+            continue
+        pl = txs[0].payload
+        lines = c02.data_lines(pl) or []
+        hdr = lines[:lines.index(b'')] if b'' in lines else lines
+        nrec = sum(1 for l in hdr if l[:9].lower() == b'received:')
+        stored = sum(len(l) - (1 if l[:1] == b'.' else 0) + 2 for l in lines)
+        dbh = sp['world'].get('control', {}).get('databytes')
+        db = int(vlib.unhex(dbh)) if dbh else 0
+        final = v[0]['final']
+        queued = final == '250'
+        plain = not sp['world'].get('strict_all') and sp['world'].get('port') != '587'
+        case = json.dumps(sp, sort_keys=True)
+        obs = 'final=%s received=%d stored=%d databytes=%d' % (final, nrec, stored, db)
+        if nrec > 100 and queued:
+            fails.append((case, obs, 'fails hop-limit: more than 100 Received fields acknowledged'))
+        elif nrec > 100 and plain and not (db and stored > db) and final != '554':
+            fails.append((case, obs, 'fails hop-limit: not refused with 554'))
+        if db and stored > db and queued:
+            fails.append((case, obs, 'fails size-limit: stored size over databytes acknowledged'))
+        elif db and stored > db and plain and nrec <= 100 and final != '552':
+            fails.append((case, obs, 'fails size-limit: not refused with 552'))
+        if (not db or stored <= db) and final == '552':
+            fails.append((case, obs, 'fails size-limit: refused for size within the limit'))
+        if nrec <= 100 and plain and (not db or stored <= db) and final != '250':
+            fails.append((case, obs, 'fails limit-not-reached-but-refused'))
+        ctx.count('transcript-clauses')
+    vlib.handle_results(ctx, 'data-limits-transcripts', 'property clauses on the real server transcript', [], fails)
+
+
 def run(ctx):
     vlib.lean_prepare(ctx, REQUIRED)
     b = session.build_qsmtpd(ctx)
@@ -135,10 +256,15 @@ def run(ctx):
             jobs.append((['ehlo', 'mail', 'rcpt_alice', 'data', 'noop'], gen_msg(rng, 0, hopcount=h)))
             jobs.append((['ehlo', 'mail', 'rcpt_alice', 'data', 'noop'], gen_msg(rng, 0, hopcount=3, hop_in_body=h)))
         run_job(ctx, b, 'hop-limit', jobs, None, vocab)
+        # the same limits against the Data model (every mode, every layout of the header)
+        specs = limit_specs(ctx)
+        for i in range(0, len(specs), 300):
+            rs = c02.run_specs(ctx, b, specs[i:i + 300], 'data-limits')
+            prop_on_transcripts(ctx, specs[i:i + 300], rs)
     if not ctx.quick():
         vlib.leanchecker(ctx, ['QsmtpModel.Props.C15'])
     return vlib.finish(ctx, assumptions=['free queue disk space is not the limiting factor (statvfs oracle)',
-                                          'the outcome of DATA as a function of message size / Received count is given to the session model by a reference computation (smtp_data accounting) until the Data model theorems are linked'])
+                                          'in the command-loop jobs the outcome of DATA is given to the session model as a verdict; the data-limits job runs the Data model of smtp_data itself against the real server'])
 
 
 def replay(ctx, path):
